@@ -53,13 +53,13 @@ theorem C05_seq36_roundtrip (i : Int) (h : Num.inInt32 i) :
 
 /-- One frame: unpacking what was packed, followed by any further bytes `rest`, yields the same
     message (all eight fields, the size being the frame length), consumes exactly the frame and
-    leaves `rest` — frames are self-delimiting. Holds for every pooled-buffer capacity `cap0`. -/
-theorem C05_raw_roundtrip (reg : Registry) (limit cap0 : Nat) (m : Msg) (bs rest : Bytes) (sz : Nat)
+    leaves `rest` — frames are self-delimiting. -/
+theorem C05_raw_roundtrip (reg : Registry) (limit : Nat) (m : Msg) (bs rest : Bytes) (sz : Nat)
     (hw : Raw.WF reg m) (hp : Raw.pack reg limit m = .ok (bs, sz)) (hlt : bs.length < 4294967296) :
-    (Raw.unpack reg limit cap0 (bs ++ rest)).out = .ok { m with size := sz } rest
-    ∧ (Raw.unpack reg limit cap0 (bs ++ rest)).consumed = bs.length
+    (Raw.unpack reg limit (bs ++ rest)).out = .ok { m with size := sz } rest
+    ∧ (Raw.unpack reg limit (bs ++ rest)).consumed = bs.length
     ∧ sz = bs.length := by
-  have := Raw.unpack_pack reg limit cap0 m bs rest sz hw hp hlt
+  have := Raw.unpack_pack reg limit m bs rest sz hw hp hlt
   rw [this.1]; exact ⟨rfl, rfl, this.2⟩
 
 /-- all frames of a list of messages, packed back to back. -/
@@ -73,12 +73,12 @@ def packAll (reg : Registry) (limit : Nat) : List Msg → Option (Bytes × List 
 /-- Any number of back-to-back frames decodes to the same frame sequence (sizes = frame lengths),
     leaving exactly the trailing bytes. `hfit`: no single frame reaches 4 GiB (the length prefix is
     a `uint32`; beyond that the Go code wraps). -/
-theorem C05_raw_stream (reg : Registry) (limit cap0 : Nat) (ms : List Msg) (tail : Bytes)
+theorem C05_raw_stream (reg : Registry) (limit : Nat) (ms : List Msg) (tail : Bytes)
     (hw : ∀ m ∈ ms, Raw.WF reg m)
     (hfit : ∀ m ∈ ms, ∀ bs sz, Raw.pack reg limit m = .ok (bs, sz) → bs.length < 4294967296)
     (stream : Bytes) (out : List Msg)
     (hp : packAll reg limit ms = some (stream, out)) :
-    Raw.unpackN reg limit cap0 ms.length (stream ++ tail) = some (out, tail) := by
+    Raw.unpackN reg limit ms.length (stream ++ tail) = some (out, tail) := by
   induction ms generalizing stream out with
   | nil => simp [packAll] at hp; simp [Raw.unpackN, hp]
   | cons m ms ih =>
@@ -94,7 +94,7 @@ theorem C05_raw_stream (reg : Registry) (limit cap0 : Nat) (ms : List Msg) (tail
         simp only [h1, h2, Option.some.injEq, Prod.mk.injEq] at hp
         obtain ⟨hs, ho⟩ := hp
         have hlt := hfit m (by simp) bs sz h1
-        have h3 := Raw.unpack_pack reg limit cap0 m bs (r ++ tail) sz (hw m (by simp)) h1 hlt
+        have h3 := Raw.unpack_pack reg limit m bs (r ++ tail) sz (hw m (by simp)) h1 hlt
         have h4 := ih (fun x hx => hw x (by simp [hx])) (fun x hx => hfit x (by simp [hx])) r o h2
         rw [← hs, ← ho, List.append_assoc]
         simp only [List.length_cons, Raw.unpackN, h3.1, h4, Option.map_some]
@@ -302,18 +302,19 @@ example : Reader.readFull 4 [[1], [], [2, 3], [4, 5]] = ([1, 2, 3, 4], true, [[5
     chunking `r` of the input gives what `Raw.unpack` gives on the concatenation `r.flatten` — the same
     message with the same eight fields and what is left of the reader is a chunking of the same rest,
     or the same classification (eof / above the limit / rejected, same reason) —, consumes the same
-    number of bytes and requests the same largest buffer. -/
-theorem C05_chunking_irrelevant (reg : Registry) (limit cap0 : Nat) (r : Reader) :
-    (Reader.unpackChunked reg limit cap0 r).out.flat = (Raw.unpack reg limit cap0 r.flatten).out ∧
-    (Reader.unpackChunked reg limit cap0 r).consumed = (Raw.unpack reg limit cap0 r.flatten).consumed ∧
-    (Reader.unpackChunked reg limit cap0 r).alloc = (Raw.unpack reg limit cap0 r.flatten).alloc := by
-  have h := Reader.unpackChunked_flat reg limit cap0 r
+    number of bytes, requests the same largest buffer and asks the connection for the same largest read. -/
+theorem C05_chunking_irrelevant (reg : Registry) (limit : Nat) (r : Reader) :
+    (Reader.unpackChunked reg limit r).out.flat = (Raw.unpack reg limit r.flatten).out ∧
+    (Reader.unpackChunked reg limit r).consumed = (Raw.unpack reg limit r.flatten).consumed ∧
+    (Reader.unpackChunked reg limit r).alloc = (Raw.unpack reg limit r.flatten).alloc ∧
+    (Reader.unpackChunked reg limit r).maxReq = (Raw.unpack reg limit r.flatten).maxReq := by
+  have h := Reader.unpackChunked_flat reg limit r
   rw [← h]
-  exact ⟨rfl, rfl, rfl⟩
+  exact ⟨rfl, rfl, rfl, rfl⟩
 
 /-- Two chunkings of the same bytes decode alike. -/
-theorem C05_chunkings_agree (reg : Registry) (limit cap0 : Nat) (r r' : Reader) (h : r.flatten = r'.flatten) :
-    (Reader.unpackChunked reg limit cap0 r).flat = (Reader.unpackChunked reg limit cap0 r').flat := by
+theorem C05_chunkings_agree (reg : Registry) (limit : Nat) (r r' : Reader) (h : r.flatten = r'.flatten) :
+    (Reader.unpackChunked reg limit r).flat = (Reader.unpackChunked reg limit r').flat := by
   rw [Reader.unpackChunked_flat, Reader.unpackChunked_flat, h]
 
 /-- The property itself: a byte stream carrying any number of back-to-back frames, delivered in
@@ -321,16 +322,16 @@ theorem C05_chunkings_agree (reg : Registry) (limit cap0 : Nat) (r r' : Reader) 
     frames of `ms` followed by any trailing bytes `tail`; reading `ms.length` frames from it through
     `io.ReadFull` yields exactly the messages (sizes = frame lengths) and leaves a reader holding
     exactly `tail`. Hypotheses as in `C05_raw_stream`. -/
-theorem C05_raw_stream_chunked (reg : Registry) (limit cap0 : Nat) (ms : List Msg) (tail : Bytes)
+theorem C05_raw_stream_chunked (reg : Registry) (limit : Nat) (ms : List Msg) (tail : Bytes)
     (hw : ∀ m ∈ ms, Raw.WF reg m)
     (hfit : ∀ m ∈ ms, ∀ bs sz, Raw.pack reg limit m = .ok (bs, sz) → bs.length < 4294967296)
     (stream : Bytes) (out : List Msg)
     (hp : packAll reg limit ms = some (stream, out))
     (r : Reader) (hr : r.flatten = stream ++ tail) :
-    ∃ r' : Reader, Reader.unpackNChunked reg limit cap0 ms.length r = some (out, r') ∧ r'.flatten = tail := by
-  have h := Reader.unpackNChunked_flat reg limit cap0 ms.length r
-  rw [hr, C05_raw_stream reg limit cap0 ms tail hw hfit stream out hp] at h
-  cases hx : Reader.unpackNChunked reg limit cap0 ms.length r with
+    ∃ r' : Reader, Reader.unpackNChunked reg limit ms.length r = some (out, r') ∧ r'.flatten = tail := by
+  have h := Reader.unpackNChunked_flat reg limit ms.length r
+  rw [hr, C05_raw_stream reg limit ms tail hw hfit stream out hp] at h
+  cases hx : Reader.unpackNChunked reg limit ms.length r with
   | none => rw [hx] at h; simp at h
   | some p =>
     rw [hx] at h
@@ -351,11 +352,11 @@ def exFrame : Bytes := match Raw.pack Drv.testReg 65536 exMsg with | .ok (bs, _)
     chunks and an empty one), decodes to `exMsg` with its size, leaving exactly the two bytes; cut off
     three bytes before its end it is `eof` with every byte consumed. -/
 example :
-    (match (Reader.unpackChunked Drv.testReg 65536 0 (Reader.chunk [1, 0, 2, 3, 0, 7, 1, 30] (exFrame ++ [9, 9]))).out with
+    (match (Reader.unpackChunked Drv.testReg 65536 (Reader.chunk [1, 0, 2, 3, 0, 7, 1, 30] (exFrame ++ [9, 9]))).out with
      | .ok m rest => decide (m = { exMsg with size := exFrame.length }) && decide (rest.flatten = [9, 9])
      | _ => false) = true ∧
-    (match Reader.unpackChunked Drv.testReg 65536 0 (Reader.chunk [1, 0, 2, 3, 0, 7, 1, 30] (exFrame.take (exFrame.length - 3))) with
-     | ⟨.eof, consumed, _⟩ => decide (consumed = exFrame.length - 3)
+    (match Reader.unpackChunked Drv.testReg 65536 (Reader.chunk [1, 0, 2, 3, 0, 7, 1, 30] (exFrame.take (exFrame.length - 3))) with
+     | ⟨.eof, consumed, _, _⟩ => decide (consumed = exFrame.length - 3)
      | _ => false) = true := by decide +kernel
 -- BEGIN json framing
 /-! ### jsonproto (`proto/jsonproto/jsonproto.go`): body escaping, Go quoting, the hand-written JSON
